@@ -363,7 +363,7 @@ def run_cbor(run, P, units=('coap_oscore.c',)):
         solve(f, Env(), on_event, None, None, None, key_fn=lambda e: (e.ts.get('cbor'), e.ts.get('over')), on_branch=on_branch, max_envs=64)
         for i, x, l in srcs:
             run.oblige('R-RANGE', True, '%s:cbor-site:%s' % (name, x))
-    run.require(nsites >= 2 or run.fixture_mode, 'R-RANGE: only %d CBOR size sources found on the wire-facing surface' % nsites)
+    run.require(nsites >= (2 if run.cfg == 'base' else 1) or run.fixture_mode, 'R-RANGE: only %d CBOR size sources found on the wire-facing surface' % nsites)
 
 
 # ---------------------------------------------------------------------------------------------------------------
